@@ -71,6 +71,9 @@ def render_request(c, rnd):
         return b64({"action": "compile", "code": {"": "# " + "x" * rnd.choice([300000, 1200000]) + "\n" + GOOD_SRC}})
     if c == "rawbytes":
         return rnd.choice([b"\xff\xfe\xfd", b"\xc3\x28 abc", b"\x80" * 40])
+    if c == "surrogate":
+        return b64(rnd.choice([b'{"action": "comp\\ud800ile"}', b'{"action": "compile", "code": {"": "pass"}, "options": {"x\\udc00": true}}',
+                               b'{"action": "\\udfff"}']))
     if c == "nul":
         return b"\x00" + rnd.choice([b"", b"abc\x00"])
     raise MachineryError("unknown request class " + c)
@@ -326,6 +329,74 @@ def check_c15(tier, t0):
                           {"property": "C15", "scenario": s, "directive_lines": lines, "caller_options": caller, "expected_effective": expected,
                            "with_directives": ra, "through_api": rb, "option_names": s["real"]},
                           "directive lines %r with caller %s: result differs from API call with the specified effective options" % (lines, "all-true" if caller["compact"] else "all-false"))
+    # ---- the same directive texts in the other positions a caller can put them -----------------------------
+    #  (a) several source files: only the MAIN file's lines count; directive lines of a library module set nothing
+    #  (b) the options argument omitted: the caller's values are the documented defaults, and stay so for the NEXT call of the process
+    DEFAULTS = cw.compile_many([{"defaults": True}])[0]["defaults"]
+    defaults = cw.compile_many([{"src": PROBE, "options": None}])[0]
+    dev = [e for e in (defaults["events"] or []) if e["ev"] == "opts_effective"]
+    if not dev:
+        raise MachineryError("hook H2 delivered nothing for a call without options")
+    default_vec = {k: bool(v) for k, v in dev[0]["options"].items() if k in cw.OPTION_NAMES}
+    if default_vec != {k: bool(v) for k, v in DEFAULTS.items()}:
+        rep.violation(["defaults"], "DEFAULT_OPTIONS_DIFFER", {"property": "C15", "observed": default_vec, "documented": DEFAULTS},
+                      "compile_code(src) without options runs with %s, CompileOptions() says %s" % (default_vec, DEFAULTS))
+    sub = [m for m in meta if sum(len(ln["tags"]) for ln in m[0]["lines"]) >= 1 and any(ln["lead"] in ("hash", "ihash") for ln in m[0]["lines"])]
+    rnd.shuffle(sub)
+    sub = sub[: (400 if tier == "thorough" else 120)]
+    LIBTXT = corpus.HEADER + "def helper(xa):\n    d4.Setting = xa\n    return xa * 3\n"
+    MAIN_LIB = PROBE.replace(corpus.HEADER, corpus.HEADER + "from library import lb\n", 1).replace("d2.Setting = HASH", "d5.Setting = lb.helper(d0.Setting)\n    d2.Setting = HASH")
+    jobs2, meta2 = [], []
+    for s_, lines, caller, expected in sub:
+        dl = "\n".join(lines) + "\n"
+        # same line numbers (they show in original_code_as_comment); code lines that merely mention the word stay
+        neutral_dl = "".join(("# removed" if ("pytrapic:" in l and l.lstrip().startswith("#")) else l) + "\n" for l in lines)
+        # (a1) directives in the library only: nothing is set
+        jobs2.append({"seq": [{"src": {"": MAIN_LIB, "lb": dl + LIBTXT}, "options": caller}, {"src": {"": MAIN_LIB, "lb": neutral_dl + LIBTXT}, "options": caller}]})
+        meta2.append(("library_only", lines, caller, caller))
+        # (a2) directives in the main file, the opposite ones in a library listed after it: the main file's count
+        jobs2.append({"seq": [{"src": {"": dl + MAIN_LIB, "lb": LIBTXT + "# pytrapic: " + ", ".join(("no-" if expected[k] else "") + k for k in cw.OPTION_NAMES) + "\n"}, "options": caller},
+                              {"src": {"": neutral_dl + MAIN_LIB, "lb": LIBTXT}, "options": expected}]})
+        meta2.append(("main_and_library", lines, caller, expected))
+        # (b) options omitted, then a second call without directives in the same process
+        jobs2.append({"seq": [{"src": dl + PROBE, "options": None}, {"src": PROBE, "options": None}]})
+        meta2.append(("omitted", lines, None, None))
+    res2 = cw.compile_many(jobs2, chunksize=8)
+    # expected vector for (b): defaults overlaid with what the specification says the text sets; the text sets option o to b iff the
+    # effective value is b under BOTH the all-false and the all-true caller (meta holds both runs of a scenario next to each other)
+    sets_by_text = {}
+    for s_, lines, caller, expected in meta:
+        ent = sets_by_text.setdefault(tuple(lines), {})
+        ent[caller["compact"]] = expected
+    nextra = 0
+    for (kind, lines, caller, expected), rr in zip(meta2, res2):
+        first, second = rr["seq"]
+        ev1 = [e for e in (first["events"] or []) if e["ev"] == "opts_effective"]
+        ev2 = [e for e in (second["events"] or []) if e["ev"] == "opts_effective"]
+        if not ev1 or not ev2:
+            raise MachineryError("hook H2 delivered nothing in a %s scenario" % kind)
+        v1 = {k: bool(v) for k, v in ev1[0]["options"].items() if k in cw.OPTION_NAMES}
+        v2 = {k: bool(v) for k, v in ev2[0]["options"].items() if k in cw.OPTION_NAMES}
+        nextra += 1
+        if kind == "omitted":
+            both = sets_by_text.get(tuple(lines), {})
+            if True not in both or False not in both:
+                continue
+            exp1 = {k: (both[True][k] if both[True][k] == both[False][k] else DEFAULTS[k]) for k in cw.OPTION_NAMES}
+            exp2 = dict(DEFAULTS)
+        else:
+            exp1, exp2 = expected, (caller if kind == "library_only" else expected)
+        key = kind + "|" + "|".join(lines)
+        if v1 != exp1:
+            rep.violation([key], "EFFECTIVE_OPTIONS_DIFFER", {"property": "C15", "placement": kind, "directive_lines": lines, "caller_options": caller,
+                                                             "expected_effective": exp1, "observed_effective": v1},
+                          "placement=%s directive lines %r: effective options differ in %s" % (kind, lines, sorted(k for k in exp1 if exp1[k] != v1.get(k))))
+        elif v2 != exp2:
+            rep.violation([key], "NEXT_CALL_AFFECTED", {"property": "C15", "placement": kind, "directive_lines": lines, "expected_effective": exp2, "observed_effective": v2},
+                          "placement=%s: after compiling directive lines %r the next call of the process runs with %s" % (kind, lines, sorted(k for k in exp2 if exp2[k] != v2.get(k))))
+        elif kind != "omitted" and (first["result"] or {}).get("code") != (second["result"] or {}).get("code") or (first["result"] or {}).get("code") is None:
+            rep.violation([key], "RESULT_DIFFERS_FROM_API", {"property": "C15", "placement": kind, "directive_lines": lines, "with_directives": first, "through_api": second},
+                          "placement=%s directive lines %r: result differs from the API call with the specified effective options" % (kind, lines))
     # binding self-test: a wrong expectation must be noticed
     wrong = cw.compile_many([{"src": "# pytrapic: compact\n" + PROBE, "options": cw.opts()}, {"src": "# removed\n" + PROBE, "options": cw.opts()}])
     if wrong[0]["result"].get("code") == wrong[1]["result"].get("code"):
@@ -337,6 +408,7 @@ def check_c15(tier, t0):
                    "(seeded blanks) onto a probe program and compiled with all-false and all-true caller options; the result must equal compiling "
                    "with the specification's effective options through the API; non-trivial = has an acting directive line with a tag" % (2 if tier == "thorough" else 1, nreal),
            "real_options_used": {k: real[k] for k in known}, "scenarios_over_all_eight_options": len(scen8), "states_8": r8.distinct, "probe_distinct_outputs_over_256_vectors": distinct_outputs,
+           "scenarios_in_other_placements": nextra, "placements": ["main file (string source)", "library module only", "main file + opposite directives in a library", "options argument omitted, followed by a second call"],
            "samples": [{"lines": meta[k][1], "caller": "all-false" if not meta[k][2]["compact"] else "all-true", "expected_effective": meta[k][3]} for k in (0, len(meta) // 2, len(meta) - 1)],
            "known_findings_hit": sorted(rep.known)}
     write_evidence("C15", tier, "model_checking", cov, time.time() - t0, violations=len(rep.violations),
